@@ -520,7 +520,20 @@ pub fn check(ctx: &CheckCtx) -> Option<Found> {
         }
     }
     ctx.col.set_sub("boundary_ids", json!(BOUNDARY_IDS));
+    if t == Tier::Thorough {
+        if let Some(f) = crate::fuzz::campaign(ctx, &fuzz_subs(ctx), 1_000_000, 16) {
+            return Some(f);
+        }
+    }
     None
+}
+
+pub fn fuzz_subs(_ctx: &CheckCtx) -> Vec<crate::fuzz::FuzzSub> {
+    vec![
+        crate::fuzz::sub("triple", triple_case(), run_case),
+        crate::fuzz::sub("factory", factory_case(), run_case),
+        crate::fuzz::sub("loop", loop_case(), run_case),
+    ]
 }
 
 pub fn replay(_ctx: &CheckCtx, _sub: &str, case: serde_json::Value) -> Result<Option<Violation>, String> {
